@@ -22,6 +22,8 @@ def stmt_sql(it):
         return "select * from no_such_table"
     if k == "call":
         return "call foo()"
+    if k == "insvar":
+        return "insert into t values ($vt_v)"
     if k == "cmton":
         return "comment on table t is 'c1'"
     if k == "cmtset":
@@ -46,7 +48,7 @@ def render(items, rng):
         else:
             out.append(rng.choice(["", "  ", "\n"]) + stmt_sql(it) + rng.choice([";", " ;", ";\n", ";  "]))
     text = "".join(out)
-    if items and items[-1]["k"] in ("ins", "sel", "fail", "cmton", "cmtset", "call") and rng.random() < 0.3:
+    if items and items[-1]["k"] in ("ins", "sel", "fail", "cmton", "cmtset", "call", "insvar") and rng.random() < 0.3:
         text = text.rstrip().rstrip(";")  # the last statement may come without its semicolon
     return text
 
@@ -124,6 +126,7 @@ class C16(Prop):
                     _FS[key] = fakesnow.instance.FakeSnow(nop_regexes={"set": ["^call", "grant "], "empty": [], "none": None}[key])
                 fs = _FS[key]
                 conn = fs.connect("DB1", sc)
+                conn.cursor().execute("set vt_v = 'abc'")
                 raw = fs.duck_conn.cursor()
                 raw.execute(f"create table {fq} (s varchar)")
             elif k == "script":
@@ -136,7 +139,10 @@ class C16(Prop):
                         return -1 if len(rows) == 1 and isinstance(v, str) else -8
                     return int(v)
 
-                stmts = [it for it in op["items"] if it["k"] in ("ins", "sel", "fail", "cmton", "cmtset", "call")]
+                stmts = [it for it in op["items"] if it["k"] in ("ins", "sel", "fail", "cmton", "cmtset", "call", "insvar")]
+                intx = bool(op.get("tx"))
+                if intx:
+                    conn.cursor().execute("begin")
                 kw = {"remove_comments": True} if op.get("rc") else {}
                 try:
                     if op["via"] == "string":
@@ -152,6 +158,11 @@ class C16(Prop):
                     obs["res"] = "err"
                 except Exception as e:
                     obs["res"] = "exc:" + type(e).__name__
+                if intx:
+                    try:
+                        conn.cursor().execute("commit")
+                    except Exception as e:
+                        obs["res"] = "commit-failed:" + type(e).__name__
             elif k == "nopstmt":
                 sql = {"call": "call foo()", "call_ws": "  call foo()", "call_upper": "CALL Foo(1)", "grant": "grant select on t to role r",
                        "ins_callx": "insert into t values ('call x')", "ins_granty": "insert into t values ('grant y')",
